@@ -3,9 +3,14 @@ import DuneVerif.Model.C19
 line-protocol driver for C19
 
   guard <def|helper|mpicomm|cc|seq> <[colour per rank]> : <section>;<section>;…
-      section = 2 letters per rank (arm ∈ n m a, act ∈ t d f r x q); answer = per rank one letter per section
-  fut <mpi|seq> <op> <void|int|vec|ref> <raw|erased> red=<sum|min|max> root=<r> vals=<v0/v1/…> : <step>;<step>;…
+      section = 2 letters per rank (arm ∈ n m a, act ∈ t d f r x q); answer = per rank one letter per section;
+      the end must be matched in every communicator (`endsMatchedB`), otherwise bad-op
+  fut <mpi|seq> <op> <void|int|vec|ref|bool> <raw|erased|assigned|voidcast|movedfrom|null> red=<sum|min|max> root=<r>
+      vals=<v0/v1/…> : <step>;<step>;…
       step = 1 letter per rank (v y w g c s -); answer = per rank the comma separated observations
+      wrap: raw = the future itself (move constructed), assigned = move-assigned into a default-constructed future,
+      erased = Dune::Future<R> holding it, voidcast = Dune::Future<void> holding it (payload discarded),
+      movedfrom = the Dune::Future<R> it was moved out of again (null), null = default-constructed Dune::Future<R>
 -/
 open DV DV.C19
 
@@ -56,15 +61,13 @@ def handleGuard (ctor : String) (groups : String) (body : String) : String :=
     | none => "bad-op"
     | some secs =>
       let n := secs.length
-      match secs.getLast? with
-      | none => "bad-op"
-      | some last =>
-        if last.any (fun s => s.2 == Act.react) then "bad-op" else
+      if n = 0 then "bad-op" else
         let colour (i : Nat) : Nat :=
           if ctor == "seq" then i else if ctor == "def" || ctor == "helper" then 0 else cols.getD i 0
         let script (i k : Nat) : Arm × Act := (secs.getD k []).getD i (.fresh, .finTrue)
         let ranks := List.range p
         let colours := dedup (ranks.map colour)
+        if !(colours.all fun c => endsMatchedB (ranks.filter fun i => colour i == c) script n) then "bad-op" else
         -- per group: run the ranks' programs in lock step
         let results : List (Nat × String) := colours.flatMap fun c =>
           let members := ranks.filter fun i => colour i == c
@@ -123,20 +126,53 @@ def AnyFut.step : AnyFut → FOp → FObs × AnyFut
   | .pseudoVoid f, o => let r := f.step o; (r.1, .pseudoVoid r.2)
   | .idle, _ => (.env, .idle)
 
-def allowed (comm op ty : String) : Bool :=
+/-- the object the calls are made on: the future itself (raw, assigned: the move constructor / move assignment hand
+over buffer and request unchanged), a `Dune::Future` holding it (`some`), a `Dune::Future<void>` holding it, or a null
+`Dune::Future` -/
+def wrapStep (wrap : String) : Option AnyFut → FOp → FObs × Option AnyFut :=
+  match wrap with
+  | "voidcast" => erasedStep (voidCastStep AnyFut.step)
+  | _ => erasedStep AnyFut.step
+
+def wrapStart (wrap : String) (f : AnyFut) : Option AnyFut :=
+  match wrap with
+  | "null" => none
+  | "movedfrom" => none
+  | _ => some f
+
+def allowedType (comm op ty : String) : Bool :=
   match comm, op with
   | _, "none" => ty == "void" || ty == "int"
   | _, "ibarrier" => ty == "void"
-  | "mpi", "ibroadcast" => ty == "int" || ty == "vec" || ty == "ref"
-  | "seq", "ibroadcast" => ty == "int" || ty == "vec"
-  | _, "igather" => ty == "int"
-  | _, "iscatter" => ty == "int"
-  | _, "iallgather" => ty == "int"
-  | _, "iallreduce" => ty == "int" || ty == "vec"
-  | "mpi", "iallreduce1" => ty == "int" || ty == "vec" || ty == "ref"
-  | "seq", "iallreduce1" => ty == "int" || ty == "vec"
-  | "mpi", "p2p" => ty == "int" || ty == "vec"
+  | _, "ibroadcast" => ty == "int" || ty == "vec" || ty == "ref" || ty == "bool"
+  | "mpi", "igather" => ty == "int" || ty == "ref"
+  | "mpi", "iscatter" => ty == "int" || ty == "ref"
+  | "mpi", "iallgather" => ty == "int" || ty == "ref"
+  | "seq", "igather" => ty == "int"
+  | "seq", "iscatter" => ty == "int"
+  | "seq", "iallgather" => ty == "int"
+  | "mpi", "iallreduce" => ty == "int" || ty == "vec" || ty == "ref" || ty == "bool"
+  | "seq", "iallreduce" => ty == "int" || ty == "vec" || ty == "bool"
+  | _, "iallreduce1" => ty == "int" || ty == "vec" || ty == "ref" || ty == "bool"
+  | "mpi", "p2p" => ty == "int" || ty == "vec" || ty == "bool"
   | _, _ => false
+
+/-- which wrappers exist for which future type: a future can be move-assigned only where the class has a usable
+default constructor (no second buffer, no reference payload); a default-constructed Dune::Future belongs to no
+operation -/
+def allowedWrap (comm op ty wrap : String) : Bool :=
+  match wrap with
+  | "raw" => true
+  | "erased" => true
+  | "voidcast" => true
+  | "movedfrom" => true
+  | "null" => op == "none"
+  | "assigned" =>
+    ty != "ref" &&
+      (comm == "seq" || op == "none" || op == "ibarrier" || op == "ibroadcast" || op == "iallreduce1" || op == "p2p")
+  | _ => false
+
+def allowed (comm op ty wrap : String) : Bool := allowedType comm op ty && allowedWrap comm op ty wrap
 
 /-- (future, payload is don't-care) of rank `i` -/
 def startFut (comm op ty : String) (red : Red) (root : Nat) (vals : List (List Int)) (i : Nat) : AnyFut × Bool :=
@@ -171,13 +207,13 @@ def startFut (comm op ty : String) (red : Red) (root : Nat) (vals : List (List I
       else if i == (root + 1) % p then (.mpiT (MpiFut.start (sent src.length) src), false)
       else (.idle, false)
 
-def runRank (f : AnyFut) (dontcare : Bool) (ops : List (Option FOp)) : List String :=
+def runRank (wrap : String) (f : Option AnyFut) (dontcare : Bool) (ops : List (Option FOp)) : List String :=
   match ops with
   | [] => []
-  | none :: os => "-" :: runRank f dontcare os
+  | none :: os => "-" :: runRank wrap f dontcare os
   | some o :: os =>
-    let r := f.step o
-    showFObs dontcare r.1 :: runRank r.2 dontcare os
+    let r := wrapStep wrap f o
+    showFObs dontcare r.1 :: runRank wrap r.2 dontcare os
 
 def handleFut (hdr : List String) (body : String) : String :=
   match hdr with
@@ -185,13 +221,15 @@ def handleFut (hdr : List String) (body : String) : String :=
     match parseRed reds, (stripPrefix? "root=" roots).bind (·.toNat?), (stripPrefix? "vals=" valss).bind parseVals with
     | some red, some root, some vals =>
       let p := vals.length
-      if !(comm == "mpi" || comm == "seq") || !(wrap == "raw" || wrap == "erased") then "bad-op" else
-      if !allowed comm op ty || root ≥ p then "bad-op" else
-      -- payload shape: void → empty, int/ref → one value, vec → equal lengths (p2p: at least one)
+      if !(comm == "mpi" || comm == "seq") then "bad-op" else
+      if !allowed comm op ty wrap || root ≥ p then "bad-op" else
+      -- payload shape: void → empty, int/ref → one value, bool → one value 0/1 (reduced with min/max only),
+      -- vec → equal lengths (p2p: at least one)
       let l0 := (vals.headD []).length
       let shapeOk :=
         if ty == "void" then vals.all (·.isEmpty)
         else if ty == "vec" then vals.all (·.length == l0) && (op != "p2p" || l0 ≥ 1)
+        else if ty == "bool" then vals.all (fun v => v.length == 1 && v.all (fun x => x == 0 || x == 1)) && red != Red.sum
         else vals.all (·.length == 1)
       if !shapeOk then "bad-op" else
       let stepStrs := (body.splitOn ";").map fun s => s.toList.filter (· ≠ ' ')
@@ -204,7 +242,7 @@ def handleFut (hdr : List String) (body : String) : String :=
           let mineOps := steps.map fun st => (st.getD i none)
           let body := match f with
             | .idle => "idle"
-            | _ => ",".intercalate (runRank f dc mineOps)
+            | _ => ",".intercalate (runRank wrap (wrapStart wrap f) dc mineOps)
           "r" ++ toString i ++ "{" ++ body ++ "}")
     | _, _, _ => "bad-op"
   | _ => "bad-op"
